@@ -184,7 +184,8 @@ def setPatch (s0 : VState) (chn ins smp0 key nna dct dca : Int) : VState × Int 
   let voc := (s.chan chn).map
   let r : Option (VState × Int × Int) :=           -- state, voc, chn (possibly relocated)
     if voc > -1 then
-      if (s.voice voc).act ≠ 0 then
+      -- `if (p->virt.voice_array[voc].act [&& p->virt.virt_channels > p->virt.num_tracks])`: the bracketed guard as generated
+      if (s.voice voc).act ≠ 0 ∧ (setpatchRelocNeedsSlots = false ∨ s.virtChannels > s.numTracks) then
         let (s1, vfree) := allocVoice s chn
         if vfree < 0 then none else
         let c := relocTarget s1 (s1.virtChannels - s1.numTracks + 1).toNat s1.numTracks
